@@ -80,23 +80,47 @@ def clean_tree(
 
 
 def _filter_out_nested_controldirs(deletables):
+    """Drop deletables that are, contain or lie inside a nested control dir."""
     result = []
-    for path, subp in deletables:
-        # bzr won't recurse into unknowns/ignored directories by default
-        # so we don't pay a penalty for checking subdirs of path for nested
-        # control dir.
-        # That said we won't detect the branch in the subdir of non-branch
-        # directory and therefore delete it. (worth to FIXME?)
-        if isdir(path):
-            try:
-                controldir.ControlDir.open(path)
-            except errors.NotBranchError:
-                result.append((path, subp))
-            else:
-                # TODO may be we need to notify user about skipped directories?
-                pass
+    cache = {}
+
+    def is_controldir(path):
+        try:
+            return cache[path]
+        except KeyError:
+            pass
+        try:
+            controldir.ControlDir.open(path)
+        except errors.NotBranchError:
+            found = False
         else:
-            result.append((path, subp))
+            found = True
+        cache[path] = found
+        return found
+
+    def contains_controldir(path):
+        # Not only path itself: a branch somewhere below an unknown or ignored
+        # directory would be deleted along with that directory.
+        # (os.walk does not follow symlinks)
+        return any(
+            is_controldir(dirpath) for dirpath, _dirnames, _filenames in os.walk(path)
+        )
+
+    for path, subp in deletables:
+        # Trees that list unversioned files individually (rather than just the
+        # topmost unversioned directory) hand us paths inside nested control
+        # dirs: anything below a directory that is a control dir is off limits.
+        root = path[: len(path) - len(subp)]
+        parts = subp.split("/")
+        if any(
+            is_controldir(root + "/".join(parts[:i])) for i in range(1, len(parts))
+        ):
+            # TODO may be we need to notify user about skipped paths?
+            continue
+        if isdir(path) and contains_controldir(path):
+            # TODO may be we need to notify user about skipped directories?
+            continue
+        result.append((path, subp))
     return result
 
 
